@@ -8,6 +8,11 @@ from concurrent.futures import ThreadPoolExecutor
 
 def mutants(src):
     out = []
+    if src and src.startswith('/tmp/rf'):
+        for d in sorted(glob.glob(src + '/G*/_out/C*_r*.diff')):
+            b = os.path.basename(d)[:-5]
+            out.append((b, b.split('_')[0], d))
+        return out
     if src == 'regressions':
         for d in sorted(glob.glob('/verif/regressions/*/patch.diff')):
             mid = d.split('/')[-2]
